@@ -1,0 +1,6 @@
+//go:build !verif
+// +build !verif
+
+package rjson
+
+func verifStack(int, int, []int) {}
